@@ -204,7 +204,26 @@ func cmdCheck(args []string) int {
 		fmt.Fprintf(os.Stderr, "no harness for property %s\n", prop)
 		return 2
 	}
-	replayTests := writeReplayTests(metas, overlay)
+	// inject only the harness directories this property needs (plus the verif
+	// package): unrelated harness files cannot break this check
+	selDirs := map[string]bool{}
+	for _, m := range sel {
+		selDirs[m.PkgDir] = true
+	}
+	for virt := range overlay {
+		rel, _ := filepath.Rel(repoDir, virt)
+		d := filepath.Dir(rel)
+		if !selDirs[d] && d != "internal/verif" {
+			delete(overlay, virt)
+		}
+	}
+	var dirMetas []HarnessMeta
+	for _, m := range metas {
+		if selDirs[m.PkgDir] {
+			dirMetas = append(dirMetas, m)
+		}
+	}
+	replayTests := writeReplayTests(dirMetas, overlay)
 
 	// load
 	pkgSet := map[string]bool{}
@@ -678,7 +697,7 @@ type replayResult struct {
 }
 
 func runNativeReplay(prop, dir string, cases []replayCase, overlay map[string][]byte) ([]*replayResult, error) {
-	wd := filepath.Join(workDir, prop+"-"+sanitize(dir))
+	wd := filepath.Join(workDir, fmt.Sprintf("%s-%s-%d", prop, sanitize(dir), os.Getpid()))
 	os.RemoveAll(wd)
 	if err := os.MkdirAll(wd, 0o755); err != nil {
 		return nil, err
